@@ -133,7 +133,20 @@ var noise Noise
 var (
 	vecAlias     = map[string]string{}
 	vecAliasDefs []string
+	vecAliases   int
+	arrAliases   int
 )
+
+// newAlias names the vector or array type spelled body. The names are numbered in the order of creation,
+// which is the order of dependency (the element type is spelled first), and they sort in that order: the
+// library prints type definitions in natural order of their names, and LLVM wants a named non-struct type
+// defined before it is used (KF-C01-nonstruct-named-type-order).
+func newAlias(body string) string {
+	name := fmt.Sprintf("$v%d", len(vecAliasDefs))
+	vecAlias[body] = name
+	vecAliasDefs = append(vecAliasDefs, fmt.Sprintf("%%%s = type %s", QuoteName(name), body))
+	return name
+}
 
 // QuoteName spells a name for use after a sigil: bare when LLVM allows, else quoted with \XX escapes.
 func QuoteName(name string) string {
@@ -194,16 +207,25 @@ func (t *Type) String() string {
 			if name, ok := vecAlias[v]; ok {
 				return "%" + QuoteName(name)
 			}
-			if len(vecAlias) < 6 || t.Scalable && len(vecAlias) < 10 { // scalable vectors are rarer: four more names are kept for them
-				name := fmt.Sprintf("$v%d", len(vecAlias))
-				vecAlias[v] = name
-				vecAliasDefs = append(vecAliasDefs, fmt.Sprintf("%%%s = type %s", QuoteName(name), v))
-				return "%" + QuoteName(name)
+			if vecAliases < 6 || t.Scalable && vecAliases < 10 { // scalable vectors are rarer: four more names are kept for them
+				vecAliases++
+				return "%" + QuoteName(newAlias(v))
 			}
 		}
 		return v
 	case Array:
-		return fmt.Sprintf("[%d x %s]", t.Len, t.Elem)
+		a := fmt.Sprintf("[%d x %s]", t.Len, t.Elem)
+		if noise.VecAlias {
+			// named array types, up to four per module (`%$v3 = type [4 x i32]`), under the same switch as the named vector types
+			if name, ok := vecAlias[a]; ok {
+				return "%" + QuoteName(name)
+			}
+			if arrAliases < 4 {
+				arrAliases++
+				return "%" + QuoteName(newAlias(a))
+			}
+		}
+		return a
 	case Struct:
 		return structBody(t.Packed, t.Fields)
 	case Func:
